@@ -26,6 +26,12 @@ CLAIMED.update({
    text='A corpus of OKL kernels covering nested and sibling @outer/@inner loops, scalar and pointer arguments of several types, @restrict, helper functions, local declarations and control flow, @exclusive, @shared with @barrier (1-D and 2-D), @atomic, @max_inner_dims, @nobarrier, @simd_length, @tile (1-D, 2-D) and @dim/@dimOrder is translated by the real occa for all seven backends; CBMC decides that every output array equals what the sequential reading of the kernel leaves, for ALL array contents and scalar arguments in the stated sizes/ranges, and that no access leaves the arrays (bounds checks on objects of exactly the declared size).'),
  'C21': dict(level='translation_validation', engine=E2, technique='bounded model checking (CBMC/SAT) of the instrumented OpenMP translation: two-iteration non-interference with a symbolic watched location, plus text equality with the Serial translation modulo pragmas', note=E2NOTE + ' Accesses are recognised lexically (subscripts/dereferences of non-const pointer parameters, kernel-local pointers, and variables declared outside the parallel loop); any access through a non-const pointer counts as a write. Determinism follows from race freedom + identical text (iterations commute); atomic/critical sections are assumed to hold commutative updates; the OpenMP runtime is trusted.', design='5/C21',
    text='For every corpus kernel the OpenMP translation must equal the Serial translation except for `#pragma omp` lines, and CBMC decides, for ALL array contents/scalar arguments in the stated ranges and for a symbolic watched location, that no location is touched by two different iterations of a `#pragma omp parallel for` loop unless every such access is inside `omp atomic`/`omp critical`; variables declared inside the loop body (the lowered @exclusive/@shared storage) are private by construction and variables declared outside it are watched like arrays. A deliberately interfering kernel must be flagged on every run (self-test of the detector).'),
+ 'C14': dict(level='model_checking', engine=E1, technique='bounded model checking (CBMC/SAT) of the real occa::primitive operators lifted from LLVM IR against CBMC\'s own C semantics of the same operator; counterexamples replayed on the g++ build', note='Trusted: clang-14 IR as the semantics of the C++ source, the own IR->C translator lift/ll2c.py (validated each run by running concrete vectors through the lifted C and the g++ build of the real functions), CBMC 6.11 + CaDiCaL, lift/models.c (operator new never fails, C++ exceptions as a pending flag), occa::error modelled as a thrown exception, std::stringstream stubbed out.' + ' Oracle: C and C++ agree on integer promotion, usual arithmetic conversions and these operators (comparison/logical results mapped to bool). Outside: literal typing (primitive::load), short-circuit evaluation in the expression nodes, int8/int16 operands, float add/sub/mul/div values (quick), full-width multiply/divide VALUES (type and definedness are decided for all values, values for operands in 0..15 / 0..63: multiplier equivalence is SAT-hard).', design='5/C14',
+   text='For each of the 18 binary and 4 unary operators of constant folding, CBMC decides over symbolic operand TYPE tags (bool, int, unsigned, long, unsigned long, float, double) and symbolic full-width operand values that occa returns exactly the value bits and the type (signedness and width) that C++ computes, for every application whose C++ result is defined, and raises an error exactly for operand types C++ rejects. One application per query: results are again primitives of the covered types, so expression trees follow by induction on the tree.'),
+ 'C23': dict(level='model_checking', engine=E1, technique='bounded model checking (CBMC/SAT) of occa::range::length() lifted from LLVM IR against the sequential loop', note='Trusted: clang-14 IR as the semantics of the C++ source, the own IR->C translator lift/ll2c.py (validated each run by running concrete vectors through the lifted C and the g++ build of the real functions), CBMC 6.11 + CaDiCaL, lift/models.c (operator new never fails, C++ exceptions as a pending flag), occa::error modelled as a thrown exception, std::stringstream stubbed out.' + ' NARROW CLAIM: only the range length and element formula are decided; occa::array operations, reductions, tile parameters and occa::forLoop build OKL source through occa::json/scope/device objects and JIT-compile it, which the lifted-IR route cannot execute.', design='5/C23',
+   text='CBMC decides for all start/end/step values in the stated range (both signs, empty and wrong-direction ranges, step != 0) that range::length() equals the number of values the sequential loop takes and that element k is start + step*k, with signed-overflow checks on the real code. The array/reduction/forLoop part of the property is outside this check (see level_note).'),
+ 'C29': dict(level='model_checking', engine=E1, technique='bounded model checking (CBMC/SAT) of the real C-API conversion functions lifted from LLVM IR; counterexamples replayed on the g++ build', note='Trusted: clang-14 IR as the semantics of the C++ source, the own IR->C translator lift/ll2c.py (validated each run by running concrete vectors through the lifted C and the g++ build of the real functions), CBMC 6.11 + CaDiCaL, lift/models.c (operator new never fails, C++ exceptions as a pending flag), occa::error modelled as a thrown exception, std::stringstream stubbed out.' + ' Outside: strings, JSON values and handle lifetimes through the C API (heap + occa::json containers), occaFree.', design='5/C29',
+   text='For the 19 scalar constructors of the C API (symbolic selector) and all 2^64 argument bit patterns CBMC decides that the occaType carries the same C type tag, byte size and value bits, that occaType -> occa::primitive -> occaType (untyped and typed) returns the identical occaType for the numeric constructors, and that the kernel-argument conversion yields one non-pointer argument of the same size and bytes for every constructor incl. occaBool.'),
 })
 NA = {}
 def load_na():
